@@ -2,6 +2,7 @@
 // usage: sched_harness <engine> <scenario> <bound> [--replay picks]
 #include "sched/sched.h"
 #include "sched/explore.h"
+#include "probe.h"
 #include <tbox/event/loop.h>
 #include <tbox/event/common_loop.h>
 #include <condition_variable>
@@ -12,27 +13,35 @@
 using namespace tbox::event;
 namespace {
 const int MAXC = 16;
-struct Rec { bool submitted = false, cancelled = false; int ran = 0, thr = -1, sub = -1, seq = -1; long order = 0; };
+VF_PROBE(has_commit_run_req_) VF_PROBE(run_in_loop_func_queue_) VF_PROBE(run_next_func_queue_) VF_PROBE(sp_run_read_event_)
+const int NCLASS = 8;
+struct Rec { bool submitted = false, cancelled = false; int ran = 0, thr = -1, want = -2, loop = 0, sub = -1, seq = -1; long order = 0; };
 Rec R[MAXC]; long g_order = 0;
-Loop *g_loop = nullptr; std::mutex *g_m; std::condition_variable *g_cv; int g_runs_done = 0, g_runs_total = 1;
-int g_next_seq[4];
+Loop *g_loop = nullptr, *g_loopB = nullptr; std::mutex *g_m; std::condition_variable *g_cv; int g_runs_done = 0, g_runs_total = 1;
+int g_next_seq[NCLASS];
+// the thread that is inside runLoop() / the destructor of loop 0 (g_loop) and loop 1 (g_loopB) right now, -1 = nobody: recorded under g_m
+// before the call and cleared after it; a callable must run on exactly that thread, whichever thread it is
+int g_runner[2] = {-1, -1};
+void set_runner(int l) { std::lock_guard<std::mutex> g(*g_m); g_runner[l] = sched_self(); }
+void end_run(int l) { std::lock_guard<std::mutex> g(*g_m); g_runner[l] = -1; g_runs_done++; g_cv->notify_all(); }
 
 void dump() {
-  auto *cl = static_cast<CommonLoop *>(g_loop); if (!cl) return;
-  sched_note("DUMP loop: has_commit_run_req=%d run_in_loop_queue=%zu run_next_queue=%zu running=%d runs_done=%d/%d", (int)cl->has_commit_run_req_, cl->run_in_loop_func_queue_.size(), cl->run_next_func_queue_.size(), (int)(cl->sp_run_read_event_ != nullptr), g_runs_done, g_runs_total);
+  for (Loop *l : {g_loop, g_loopB}) { auto *cl = static_cast<CommonLoop *>(l); if (!cl) continue;
+    sched_note("DUMP loop%s: has_commit_run_req=%d run_in_loop_queue=%zu run_next_queue=%zu running=%d runs_done=%d/%d", l == g_loopB ? "B" : "", VF_GET(has_commit_run_req_, *cl, -1), VF_SIZE(run_in_loop_func_queue_, *cl, (size_t)0), VF_SIZE(run_next_func_queue_, *cl, (size_t)0), (int)(VF_GET(sp_run_read_event_, *cl, (void *)0) != nullptr), g_runs_done, g_runs_total); }
 }
+void mark(int id) { std::lock_guard<std::mutex> g(*g_m); R[id].ran++; R[id].thr = sched_self(); R[id].want = g_runner[R[id].loop]; R[id].order = ++g_order; }
 // a callable: records itself; optionally exits the loop / re-submits a child through runNext
 std::function<void()> task(int id, bool exit_loop, int child = -1) {
   return [id, exit_loop, child] {
-    { std::lock_guard<std::mutex> g(*g_m); R[id].ran++; R[id].thr = sched_self(); R[id].order = ++g_order; }
+    mark(id);
     if (child >= 0) { R[child].submitted = true; R[child].sub = 3; R[child].seq = g_next_seq[3]++; g_loop->runNext(task(child, false)); }
     if (exit_loop) g_loop->exitLoop();
     std::lock_guard<std::mutex> g(*g_m); g_cv->notify_all();
   };
 }
-// sequence classes ("submitter" for the order clause): 0,1 = foreign threads through runInLoop, 2 = loop thread through runInLoop / a foreign run(), 3 = loop thread through runNext
+// sequence classes ("submitter" for the order clause): 0,1 = foreign threads through runInLoop, 2 = loop thread through runInLoop / a foreign run(), 3 = loop thread through runNext,
+// 4 = main thread through runInLoop of the second loop, 5 = main thread through run() of the second loop
 void reg(int sub, int id) { R[id].submitted = true; R[id].sub = sub; R[id].seq = g_next_seq[sub]++; }
-void mark(int id) { std::lock_guard<std::mutex> g(*g_m); R[id].ran++; R[id].thr = sched_self(); R[id].order = ++g_order; }
 void wake_all() { std::lock_guard<std::mutex> g(*g_m); g_cv->notify_all(); }
 void submit(int sub, int id, bool exit_loop, int child = -1) {
   reg(sub, id);
@@ -77,11 +86,50 @@ void closing(int sub, int first_id, int n) {
     std::unique_lock<std::mutex> lk(*g_m); g_cv->wait(lk, [id] { return R[id].ran > 0 || g_runs_done == g_runs_total; });
   }
 }
+// a callable for the second loop (scenario 12)
+std::function<void()> taskB(int id, bool exit_loop) { return [id, exit_loop] { mark(id); if (exit_loop) g_loopB->exitLoop(); wake_all(); }; }
+void regB(int cls, int id) { R[id].loop = 1; reg(cls, id); }
+void judge();
 void scenario(const char *engine, int scen) {
   std::mutex m; std::condition_variable cv; g_m = &m; g_cv = &cv;
   Loop *loop = Loop::New(engine); g_loop = loop; sched_on_deadlock(dump);
-  std::vector<std::thread> subs;
+  std::vector<std::thread> subs; Loop::Mode mode = Loop::Mode::kForever;
   switch (scen) {
+    case 9: {   // the loop thread changes: created + first run on main, second run + destruction on a helper; main, the FORMER loop thread, submits during the second run
+      g_runs_total = 2; bool done = false;
+      submit(0, 0, true);                                   // handed in before any run; ends run 0
+      set_runner(0); loop->runLoop(); end_run(0);
+      std::thread H([&] { set_runner(0); loop->runLoop(); end_run(0);
+                          { std::unique_lock<std::mutex> lk(m); cv.wait(lk, [&] { return done; }); }
+                          set_runner(0); delete loop; std::lock_guard<std::mutex> g(m); g_runner[0] = -1; });
+      submit(0, 1, false); wait_ran({1});                   // run 1 is on, only this thread can stop it
+      reg(2, 2); g_loop->run(task(2, false)); wait_ran({2});   // run() on the former loop thread must now take the thread-safe path and wake the helper
+      closing(0, 8, 3);
+      submit(0, 3, false);                                  // after the last run: runs at destruction, on the helper
+      { std::lock_guard<std::mutex> g(m); done = true; cv.notify_all(); }
+      H.join(); g_loop = nullptr; judge(); return; }
+    case 10: {  // created and destroyed on main, run on a helper: main never is the loop thread
+      g_runs_total = 1;
+      std::thread H([&] { set_runner(0); loop->runLoop(); end_run(0); });
+      submit(0, 0, false); wait_ran({0});
+      reg(2, 1); g_loop->run(task(1, false)); wait_ran({1});
+      closing(0, 8, 3); H.join();
+      submit(0, 2, false);                                  // pending at destruction: runs on the destroying thread
+      set_runner(0); delete loop; g_loop = nullptr; judge(); return; }
+    case 11: g_runs_total = 2; mode = Loop::Mode::kOnce; subs.emplace_back([] { closing(0, 8, 6); }); break;   // two kOnce passes, each blocked until a foreign runInLoop wakes it (a pass takes at most two of the offered callables)
+    case 12: {  // two loops: A on main, B on a helper; a callable on A's thread hands work to B through run() and runInLoop(const&)
+      g_runs_total = 2; Loop *B = Loop::New(engine); g_loopB = B;
+      regB(4, 4); B->runInLoop(taskB(4, false));            // thread-safe, before B runs
+      std::thread H([&] { set_runner(1); B->runLoop(); end_run(1); });
+      reg(0, 0); loop->runInLoop([] { mark(0);
+        wait_ran({4});                                      // B is running now and only this thread can stop it
+        regB(5, 1); g_loopB->run(taskB(1, false)); wait_ran({1});      // this thread is A's loop thread, not B's: must pick runInLoop and wake B
+        regB(4, 2); { const Loop::Func cf(taskB(2, false)); g_loopB->runInLoop(cf); } wait_ran({2});
+        g_loop->exitLoop(); wake_all(); });
+      set_runner(0); loop->runLoop(); end_run(0);
+      regB(4, 3); B->runInLoop(taskB(3, true)); H.join();
+      set_runner(0); delete loop; g_loop = nullptr;
+      set_runner(1); delete B; g_loopB = nullptr; judge(); return; }
     case 0: g_runs_total = 1; subs.emplace_back([] { submit(0, 0, false); submit(0, 1, false); closing(0, 8, 3); }); break;
     case 1: g_runs_total = 2; subs.emplace_back([] { submit(0, 0, true); submit(0, 1, false); closing(0, 8, 4); }); break;   // exit, re-run
     case 2: g_runs_total = 1; subs.emplace_back([] { submit(0, 0, false); closing(0, 8, 3); }); subs.emplace_back([] { submit(1, 1, false); submit(1, 2, false); }); break;
@@ -97,12 +145,14 @@ void scenario(const char *engine, int scen) {
                                                      reg(0, 3); { const Loop::Func cf(task(3, false)); g_loop->runInLoop(cf); }     // `const Func &` overload into a loop that may already sleep: nobody else will wake it
                                                      wait_ran({3}); closing(0, 8, 3); }); break;
   }
-  for (int r = 0; r < g_runs_total; r++) { loop->runLoop(); std::lock_guard<std::mutex> g(m); g_runs_done++; cv.notify_all(); }
+  for (int r = 0; r < g_runs_total; r++) { set_runner(0); loop->runLoop(mode); end_run(0); }
   for (auto &t : subs) t.join();
-  delete loop; g_loop = nullptr;        // anything still pending must run now, on this thread
-  // ---- oracle
-  long last[4] = {0, 0, 0, 0}; int lastseq[4] = {-1, -1, -1, -1};
-  for (int pass = 0; pass < 1; pass++) {
+  set_runner(0); delete loop; g_loop = nullptr;        // anything still pending must run now, on this thread
+  judge();
+}
+void judge() {
+  int lastseq[NCLASS]; for (int &x : lastseq) x = -1;
+  {
     // walk in execution order
     std::vector<int> ids; for (int i = 0; i < MAXC; i++) if (R[i].submitted) ids.push_back(i);
     std::sort(ids.begin(), ids.end(), [](int a, int b) { return R[a].order < R[b].order; });
@@ -110,12 +160,11 @@ void scenario(const char *engine, int scen) {
     for (int id : ids) { Rec &r = R[id];
       if (r.cancelled) { if (r.ran != 0) sched_fail("cancelled callable %d was invoked %d times", id, r.ran); continue; }
       if (r.ran != 1) sched_fail("callable %d (submitter %d) ran %d times", id, r.sub, r.ran);
-      if (r.thr != 0) sched_fail("callable %d ran on thread %d, not the loop thread", id, r.thr);
+      if (r.thr != r.want) sched_fail("callable %d ran on thread %d, but thread %d was running / destroying its loop", id, r.thr, r.want);
       if (r.seq < lastseq[r.sub]) sched_fail("submitter %d: callable seq %d ran after seq %d", r.sub, r.seq, lastseq[r.sub]);
       lastseq[r.sub] = r.seq; ord += std::to_string(id) + ","; }
     sched_note("O order=%s", ord.c_str());
   }
-  (void)last;
 }
 }  // namespace
 
